@@ -28,9 +28,13 @@ def compare_runs(case, run, mr, label="model"):
     """Returns list of mismatch strings between trace user-code runs and the model's."""
     out = []
     seen = {}
+    dups_ok = set(int(u) for u in case.meta.get("dup_uids", []))
+    skip = set(int(u) for u in case.meta.get("skip_uids", []))
     for ue in run.uevals():
+        if ue.uid in skip:
+            continue
         key = (ue.uid, ue.t)
-        if key in seen:
+        if key in seen and (ue.uid not in dups_ok or (seen[key].gid, seen[key].idx) == (ue.gid, ue.idx)):
             out.append(f"uid {ue.uid} user code ran twice at t={ue.t}")
             continue
         seen[key] = ue
@@ -46,6 +50,8 @@ def compare_runs(case, run, mr, label="model"):
         if [tuple(x) for x in eins] != [tuple(x) for x in ue.ins]:
             out.append(f"uid {ue.uid} t={ue.t}: read inputs (valid,modified,lmt,value) {ue.ins}, {label} expects {eins}")
     for key, (eout, _) in mr.runs.items():
+        if key[0] in skip:
+            continue
         if key not in seen and eout != "THROW":
             out.append(f"missing run: {label} expects uid {key[0]} to run at t={key[1]}")
     return out
